@@ -64,4 +64,66 @@ def finish (s : St) : St :=
 
 def writeAll (bufs : List Bytes) : St := finish (bufs.foldl writeBuf {})
 
+
+/-! ### length view: the same writer with the file reduced to its size
+
+Zero runs of many GiB cannot be materialised as a `List UInt8`.  The seek / write calls and the pending-skip count do not depend on the
+bytes already in the file, only on their number; `LSt` keeps just that.  `storedSkips` is an unbounded `Nat` here: whatever the width of the
+C accumulator, the calls must add up to these (Props/C19.lean: `abs_writeAll`, `writeBufL_zeros`, `zerosL_eq`). -/
+
+structure LSt where
+  size : Nat := 0
+  skips : Nat := 0
+  ops : List IoOp := []
+deriving DecidableEq, Repr
+
+def St.abs (s : St) : LSt := { size := s.content.length, skips := s.skips, ops := s.ops }
+
+def seekWriteL (l : LSt) (n : Nat) : LSt :=
+  { size := l.size + l.skips + n, skips := 0, ops := l.ops ++ [.seek l.skips, .write n] }
+
+def segmentL (l : LSt) (seg : Bytes) : LSt :=
+  let nb0 := zeroWords seg
+  if 8 * nb0 = seg.length then { l with skips := l.skips + 8 * nb0 }
+  else seekWriteL { l with skips := l.skips + 8 * nb0 } (seg.length - 8 * nb0)
+
+def bodyL (l : LSt) (b : Bytes) : LSt :=
+  if h : b = [] then l else bodyL (segmentL l (b.take segmentSize)) (b.drop segmentSize)
+termination_by b.length
+decreasing_by
+  have : 0 < b.length := List.length_pos_iff.mpr h
+  simp [List.length_drop, segmentSize]; omega
+
+def tailL (l : LSt) (rest : Bytes) : LSt :=
+  if rest = [] then l else
+  let z := (rest.takeWhile (· == 0)).length
+  if z = rest.length then { l with skips := l.skips + z }
+  else seekWriteL { l with skips := l.skips + z } (rest.length - z)
+
+def writeBufL (l : LSt) (buf : Bytes) : LSt :=
+  let n := 8 * (buf.length / 8)
+  tailL (bodyL l (buf.take n)) (buf.drop n)
+
+def finishL (l : LSt) : LSt :=
+  if l.skips > 0 then { size := l.size + l.skips, skips := 0, ops := l.ops ++ [.seek (l.skips - 1), .write 1] } else l
+
+/-- `count` consecutive buffers of `n` zero bytes each: nothing is issued, the pending skip grows (proved equal to the fold of `writeBufL`
+over those buffers: `zerosL_eq`) -/
+def zerosL (l : LSt) (n count : Nat) : LSt := { l with skips := l.skips + n * count }
+
+/-- a buffer sequence with run-length coded zero buffers -/
+inductive Item where
+  | data (b : Bytes)
+  | zeros (n count : Nat)
+
+def Item.expand : Item → List Bytes
+  | .data b => [b]
+  | .zeros n count => List.replicate count (List.replicate n 0)
+
+def writeItemL (l : LSt) : Item → LSt
+  | .data b => writeBufL l b
+  | .zeros n count => zerosL l n count
+
+def writeAllL (items : List Item) : LSt := finishL (items.foldl writeItemL {})
+
 end ZstdVerif.Sparse
